@@ -36,6 +36,7 @@ type Interp struct {
 	pathCnt int
 	sorts   map[string]bool
 	safetyN map[string]int
+	frozenOf map[*Cell]Term
 	// configuration
 	maxPaths int
 }
@@ -67,7 +68,7 @@ type Frame struct {
 
 func NewInterp(w *World) *Interp {
 	in := &Interp{W: w, D: newDecls(), initial: map[*Cell]Val{}, assumes: map[string]bool{},
-		strLits: map[string]Term{}, errVars: map[string]Term{}, sorts: map[string]bool{}, safetyN: map[string]int{}, maxPaths: 600}
+		strLits: map[string]Term{}, errVars: map[string]Term{}, sorts: map[string]bool{}, safetyN: map[string]int{}, frozenOf: map[*Cell]Term{}, maxPaths: 600}
 	return in
 }
 
@@ -474,7 +475,7 @@ func (in *Interp) zeroVal(t types.Type, f *Frame) Val {
 	case *types.Array:
 		es := in.sortOf(u.Elem())
 		z := in.zeroTerm(u.Elem(), f)
-		return ArrV{T: Term{S: fmt.Sprintf("((as const (Array Int %s)) %s)", es, z.S), Sort: ArrSort(es)}, N: u.Len()}
+		return ArrV{T: in.constArray(es, z), N: u.Len()}
 	case *types.Slice:
 		reg := in.newCell("nilslice", CRegion, u.Elem())
 		return SliceV{Reg: reg, Off: IntLit(0), Len: IntLit(0), Cap: IntLit(0), Nil: TTrue}
@@ -508,6 +509,18 @@ func (in *Interp) zeroVal(t types.Type, f *Frame) Val {
 	s := in.sortOf(t)
 	in.D.declareOnce("zero:"+s, fmt.Sprintf("(declare-const zero_%s %s)", s, s))
 	return Sc{Term{S: "zero_" + s, Sort: s}}
+}
+
+// constArray: the array whose every element is z.  Solvers accept `as const` only for
+// value terms, so non-literal elements get a fresh array with a defining axiom.
+func (in *Interp) constArray(es string, z Term) Term {
+	if z.IsLit() || z.blit != 0 {
+		return Term{S: fmt.Sprintf("((as const (Array Int %s)) %s)", es, z.S), Sort: ArrSort(es)}
+	}
+	a := in.D.fresh("zeros", ArrSort(es))
+	j := Term{S: "j", Sort: SInt}
+	in.assumeGlobal(Forall([]Term{j}, Eq(Select(a, j), z), []Term{Select(a, j)}))
+	return a
 }
 
 // zeroTerm: zero value as a single term (container element).
@@ -552,10 +565,10 @@ func (in *Interp) freeze(v Val, t types.Type, st *State, f *Frame) Term {
 	case ArrV:
 		return x.T
 	case SliceV:
-		content := in.regionContent(st, x.Reg, f)
 		if isByteSlice(t) {
-			return App("mkstr", SStr, content, x.Off, x.Len)
+			return in.mkStr(x, st, f)
 		}
+		content := in.regionContent(st, x.Reg, f)
 		s := in.sortOf(t)
 		// shift to offset 0 is not expressible without lambda; keep (arr,off) by requiring off==0 or using shifted fresh array
 		if x.Off.IsLit() && x.Off.lit.Sign() == 0 {
@@ -613,6 +626,7 @@ func (in *Interp) thaw(tm Term, t types.Type, f *Frame) Val {
 	case *types.Slice:
 		reg := in.newCell("thaw[]", CRegion, u.Elem())
 		if isByteSlice(t) {
+			in.frozenOf[reg] = tm
 			in.initial[reg] = ArrV{T: App("sarr", ArrSort(SInt), tm)}
 			ln := App("slen", SInt, tm)
 			return SliceV{Reg: reg, Off: IntLit(0), Len: ln, Cap: ln, Nil: App("snil", SBool, tm)}
@@ -645,6 +659,19 @@ func (in *Interp) thaw(tm Term, t types.Type, f *Frame) Val {
 		return PtrV{To: c, Nil: Eq(tm, Term{S: "ref_nil", Sort: SRef})}
 	}
 	panic(&Unsupported{Msg: "thaw: type " + t.String()})
+}
+
+// mkStr freezes a byte-slice view into a Str term.  A full, unmodified view of a
+// region that was thawed from a Str gives back that Str (no extensionality needed).
+func (in *Interp) mkStr(sl SliceV, st *State, f *Frame) Term {
+	content := in.regionContent(st, sl.Reg, f)
+	if orig, ok := in.frozenOf[sl.Reg]; ok {
+		if sl.Off.IsLit() && sl.Off.lit.Sign() == 0 && sl.Len.S == App("slen", SInt, orig).S &&
+			content.S == App("sarr", ArrSort(SInt), orig).S {
+			return orig
+		}
+	}
+	return App("mkstr", SStr, content, sl.Off, sl.Len)
 }
 
 func (in *Interp) regionContent(st *State, c *Cell, f *Frame) Term {
